@@ -12,8 +12,8 @@ type scope struct {
 // keys under which a loop's scope records its limit and index variables.
 // ("$" cannot occur in a Soy variable name, so they cannot clash with one.)
 const (
-	loopLimitKey = "$limit"
-	loopIndexKey = "$index"
+	loopLimitKey = "$limit:"
+	loopIndexKey = "$index:"
 )
 
 func (s *scope) push() {
@@ -59,9 +59,9 @@ func (s *scope) pushForRange(loopVar string) (lVar, lLimit string) {
 	s.n++
 	n := strconv.Itoa(s.n)
 	s.stack = append(s.stack, map[string]string{
-		loopVar:   loopVar + n,
-		loopLimitKey: loopVar + "Limit" + n,
-		loopIndexKey: loopVar + n,
+		loopVar:                loopVar + n,
+		loopLimitKey + loopVar: loopVar + "Limit" + n,
+		loopIndexKey + loopVar: loopVar + n,
 	})
 	return loopVar + n,
 		loopVar + "Limit" + n
@@ -71,9 +71,9 @@ func (s *scope) pushForEach(loopVar string) (lVar, lList, lLen, lIndex string) {
 	s.n++
 	n := strconv.Itoa(s.n)
 	s.stack = append(s.stack, map[string]string{
-		loopVar:   loopVar + n,
-		loopLimitKey: loopVar + "Limit" + n,
-		loopIndexKey: loopVar + "Index" + n,
+		loopVar:                loopVar + n,
+		loopLimitKey + loopVar: loopVar + "Limit" + n,
+		loopIndexKey + loopVar: loopVar + "Index" + n,
 	})
 	return loopVar + n,
 		loopVar + "List" + n,
@@ -81,12 +81,14 @@ func (s *scope) pushForEach(loopVar string) (lVar, lList, lLen, lIndex string) {
 		loopVar + "Index" + n
 }
 
-// looplimit returns the JS variable name for the innermost loop limit.
-func (s *scope) looplimit() string {
-	return s.lookup(loopLimitKey)
+// looplimit returns the JS variable name for the limit of the (innermost)
+// loop over the given loop variable.
+func (s *scope) looplimit(loopVar string) string {
+	return s.lookup(loopLimitKey + loopVar)
 }
 
-// looplimit returns the JS variable name for the innermost loop index.
-func (s *scope) loopindex() string {
-	return s.lookup(loopIndexKey)
+// loopindex returns the JS variable name for the index of the (innermost)
+// loop over the given loop variable.
+func (s *scope) loopindex(loopVar string) string {
+	return s.lookup(loopIndexKey + loopVar)
 }
